@@ -31,7 +31,7 @@ RULE = (
 )
 ASSUMPTIONS = [
     "fixes are applied in-process through check_for_test(apply_changes=True), which shares _apply_changes_to_lines with the CLI",
-    "expression equivalence is checked by evaluating old and new expression on small generated environments",
+    "expression equivalence is checked by evaluating old and new expression on small generated environments, and for comprehension-target and positional->keyword rewrites by running the generated functions before and after the fix on small argument sets",
 ]
 MAX_ABSTAIN = 0.8
 
@@ -49,7 +49,11 @@ _checkers = {}
 
 def checker_for(name):
     if name not in _checkers or _checkers[name][1] > 300:
-        _checkers[name] = [sut.new_checker(settings=sut.settings_from(FIX_CODES) if name == "fix" else None), 0]
+        if name == "fix":
+            ch = sut.new_checker(settings=sut.settings_from(FIX_CODES), maximum_positional_args=2)
+        else:
+            ch = sut.new_checker()
+        _checkers[name] = [ch, 0]
     _checkers[name][1] += 1
     return _checkers[name][0]
 
@@ -162,13 +166,23 @@ def add_ignore_history(src, col=None):
 
 NAMES = ["a", "b", "c"]
 
+# contexts an expression E can sit in; several hold non-AST items in AST lists (None keys of `**` entries,
+# None kw_defaults, names of global statements) or siblings that must survive the rewrite untouched
+CONTEXTS = ["{E}", "{E}", "{{**b, 'k': {E}}}", "{{'j': a, **b, 'k': {E}, **b}}", "(lambda *, k, j=1: {E})(k=1)", "[*b, {E}]",
+            "({E}, b)[0]", "({E} if a else b)", "[{E}, {E}]", "len([{E}])", "(b, *[{E}])", "{{{E}: b}}", "[{E}][0:1]"]
+
+
+def in_context(draw, e):
+    return draw(st.sampled_from(CONTEXTS)).replace("{{", "\0").replace("}}", "\1").replace("{E}", e).replace("\0", "{").replace("\1", "}")
+
+
 
 @st.composite
 def fixable_function(draw, i):
     kind = draw(st.sampled_from(["unused", "unused", "unused-sole", "unused-multiline", "unused-tuple", "unused-comp",
                                  "missing_f", "use_fstrings-percent", "use_fstrings-format", "too-many-positional",
                                  "unused-ignore-trailing", "unused-ignore-own-line", "unused-aug", "unused-line1"]))
-    wrap = draw(st.sampled_from(["none", "none", "if", "for", "try", "with", "class"]))
+    wrap = draw(st.sampled_from(["none", "none", "if", "for", "try", "with", "class", "semicolons", "inline-if", "inline-def"]))
     head = f"def f{i}(a, b):"
     body = []
     if kind == "unused":
@@ -180,21 +194,27 @@ def fixable_function(draw, i):
     elif kind == "unused-tuple":
         body = [f"x{i}, y{i} = a, b", "return a"]
     elif kind == "unused-comp":
-        body = [f"return [1 for x{i} in a]"]
+        comp = draw(st.sampled_from([f"[1 for x{i} in a]", f"{{1 for x{i} in a}}", f"{{1: b for x{i} in a}}", f"list(1 for x{i} in a)",
+                                     f"[z{i} for z{i} in a for x{i} in a]"]))
+        body = ["return " + in_context(draw, comp)]
+        if draw(st.booleans()):
+            body = [f"global G{i}", f"G{i} = " + in_context(draw, comp), "return b"]
     elif kind == "unused-aug":
         body = [f"x{i} = 0", f"x{i} = a", "return b"]
     elif kind == "unused-line1":
         return kind, [f"def f{i}(a, b): x{i} = a; return b"]
     elif kind == "missing_f":
-        body = [draw(st.sampled_from(['return "{a} and {b!r}"', 'return "{a:>5}" + "x"', "return ('{a}', '{b}')", 'return "{a}" "{b}"']))]
+        body = ["return " + in_context(draw, draw(st.sampled_from(['"{a} and {b!r}"', '"{a:>5}" + "x"', "('{a}', '{b}')", '"{a}" "{b}"'])))]
     elif kind == "use_fstrings-percent":
-        body = [draw(st.sampled_from(['return "%s-%s" % (a, b)', 'return "%s" % a', 'return "%d and %r" % (a, b)', 'return "%(k)s" % {"k": a}',
-                                      'return "x%sy" % (a + b,)', 'return "%5.2f" % a']))]
+        body = ["return " + in_context(draw, draw(st.sampled_from(['"%s-%s" % (a, b)', '"%s" % a', '"%d and %r" % (a, b)', '"%(k)s" % {"k": a}',
+                                                                  '"x%sy" % (a + b,)', '"%5.2f" % a'])))]
     elif kind == "use_fstrings-format":
-        body = [draw(st.sampled_from(['return "{} {}".format(a, b)', 'return "{0} {0}".format(a)', 'return "{x}".format(x=a)', 'return "{!r:>4}".format(a)']))]
+        body = ["return " + in_context(draw, draw(st.sampled_from(['"{} {}".format(a, b)', '"{0} {0}".format(a)', '"{x}".format(x=a)',
+                                                                  '"{!r:>4}".format(a)'])))]
     elif kind == "too-many-positional":
-        body = [f"return g{i}(a, b, 3)"]
-        return kind, [f"def g{i}(p, q, r=0): return p", head] + ["    " + l for l in body]
+        body = ["return " + in_context(draw, f"g{i}(a, b, 3)")]
+        sig = draw(st.sampled_from(["p, q, r=0", "p, q, r", "p, q=1, r=2, s=3", "p, /, q, r"]))
+        return kind, [f"def g{i}({sig}): return (p, q, r)", head] + ["    " + l for l in body]
     elif kind == "unused-ignore-trailing":
         body = ["return b  # static analysis: ignore[undefined_name]"]
     elif kind == "unused-ignore-own-line":
@@ -207,6 +227,14 @@ def fixable_function(draw, i):
         body = ["try:"] + ["    " + l for l in body] + ["except Exception:", "    return a"]
     elif wrap == "with":
         body = ["with open(a) as _h:"] + ["    " + l for l in body]
+    simple = all(not l.rstrip().endswith(":") and not l.lstrip().startswith(("#", "global")) and "#" not in l and not l.startswith(" ")
+                 and l.strip() not in ("]", "a,", "b,") and not l.rstrip().endswith("[") for l in body)
+    if wrap == "semicolons" and simple and len(body) > 1:
+        body = ["; ".join(body)]
+    elif wrap == "inline-if" and simple:
+        body = ["if a: " + "; ".join(body), "return a"]
+    elif wrap == "inline-def" and simple:
+        return kind, [head + " " + "; ".join(body)]
     lines = [head] + ["    " + l for l in body]
     if wrap == "class":
         lines = [f"class K{i}:"] + ["    " + l.replace(f"def f{i}(a, b)", f"def f{i}(self, a, b)") for l in lines]
@@ -281,6 +309,100 @@ def ast_edit(old_src, new_src):
     return ("other", f"{len(diffs)} places differ")
 
 
+def intended_edit(code, edit):
+    """None if the tree edit is of the shape the fix for `code` is meant to make, else (kind, why)."""
+    t = edit[0]
+    if t == "other":
+        return ("unintended-edit", f"the tree changed in an unexpected way ({edit[1]})")
+    if code in ("unused_variable", "unused_assignment"):
+        if t in ("same", "stmt-deleted"):
+            if t == "stmt-deleted" and not isinstance(edit[1], (ast.Assign, ast.AugAssign, ast.AnnAssign)):
+                return ("unintended-edit", f"a {type(edit[1]).__name__} statement was deleted")
+            return None
+        old_e, new_e = edit[1], edit[2]
+        if isinstance(old_e, ast.Name) and isinstance(new_e, ast.Name) and new_e.id == "_" and isinstance(old_e.ctx, ast.Store):
+            return None
+        return ("collateral-edit", f"expected a target name replaced by `_` or a statement deleted; `{_unp(old_e)}` became `{_unp(new_e)}`")
+    if code == "unused_ignore":
+        return None if t == "same" else ("unintended-edit", "removing an unused ignore comment changed the syntax tree")
+    if t != "expr-replaced":
+        return ("unintended-edit", f"expected one expression to be replaced, got {t}")
+    old_e, new_e = edit[1], edit[2]
+    if code == "missing_f":
+        if isinstance(old_e, ast.Constant) and isinstance(old_e.value, str) and isinstance(new_e, ast.JoinedStr):
+            return None
+    elif code == "use_fstrings":
+        is_percent = isinstance(old_e, ast.BinOp) and isinstance(old_e.op, ast.Mod) and isinstance(old_e.left, ast.Constant)
+        is_format = (isinstance(old_e, ast.Call) and isinstance(old_e.func, ast.Attribute) and old_e.func.attr == "format"
+                     and isinstance(old_e.func.value, ast.Constant))
+        if (is_percent or is_format) and isinstance(new_e, (ast.JoinedStr, ast.Constant)):
+            return None
+    elif code == "too_many_positional_args":
+        if isinstance(old_e, ast.Call) and isinstance(new_e, ast.Call) and ast.dump(old_e.func) == ast.dump(new_e.func):
+            old_vals = [ast.dump(x) for x in old_e.args] + [ast.dump(k.value) for k in old_e.keywords]
+            new_vals = [ast.dump(x) for x in new_e.args] + [ast.dump(k.value) for k in new_e.keywords]
+            if old_vals == new_vals:
+                return None
+    return ("collateral-edit", f"the replaced expression is not the diagnosed one: `{_unp(old_e)}` became `{_unp(new_e)}`")
+
+
+def _unp(n):
+    try:
+        return ast.unparse(n)
+    except Exception:
+        return ast.dump(n)[:200]
+
+
+EXEC_ENVS = ENVS + [{"a": [1, 2], "b": {"z": 1}}, {"a": "pq", "b": {}}, {"a": {"k": 1}, "b": [3]}]
+
+
+def exec_diff(old_src, new_src):
+    """Run every generated function of both texts on small argument sets; a description of the first
+    difference in outcome (value or exception type), or None."""
+    if "open(" in old_src:
+        return None
+    spaces = []
+    for text in (old_src, new_src):
+        ns = {"__name__": "pv_c16_exec"}
+        try:
+            exec(compile(text, "<c16>", "exec"), ns)
+        except Exception as e:
+            return f"executing the module raised {type(e).__name__}" if text is new_src else None
+        spaces.append(ns)
+    if spaces[0] is None:
+        return None
+
+    def entry(ns, name):
+        m = re.fullmatch(r"f(\d+)", name)
+        if name in ns:
+            return ns[name]
+        k = ns.get("K" + m.group(1))
+        return getattr(k(), name) if k is not None and hasattr(k, name) else None
+    for name in sorted(set(re.findall(r"def (f\d+)\(", old_src))):
+        for env in EXEC_ENVS:
+            outs = []
+            for ns in spaces:
+                fn = entry(ns, name)
+                if fn is None:
+                    outs.append(("missing",))
+                    continue
+                try:
+                    v = fn(*[copy_arg(env["a"]), copy_arg(env["b"])])
+                    if hasattr(v, "__next__"):
+                        v = list(v)
+                    outs.append(("ok", repr(v)))
+                except Exception as e:
+                    outs.append(("exc", type(e).__name__))
+            if outs[0] != outs[1]:
+                return f"{name}({env['a']!r}, {env['b']!r}) gave {outs[0]} before the fix and {outs[1]} after"
+    return None
+
+
+def copy_arg(x):
+    import copy as _c
+    return _c.deepcopy(x)
+
+
 def autofix_history(kinds, src, col=None):
     fails = []
     settings = dict(FIX_CODES)
@@ -310,36 +432,25 @@ def autofix_history(kinds, src, col=None):
             fails.append((f"autofix|does-not-parse|{code}", f"applying the fix for {diag_key(proposer)} gives text that does not parse ({e.msg}):\n{new}"))
             break
         edit = ast_edit(cur, new)
-        if code in ("unused_variable", "unused_assignment"):
-            ok = edit[0] == "stmt-deleted" or (edit[0] == "expr-replaced") or edit[0] == "same"
-            if edit[0] == "other":
-                fails.append((f"autofix|unintended-edit|{code}", f"fix for {diag_key(proposer)} changed the tree in an unexpected way ({edit[1]})"))
-                break
-            if edit[0] == "expr-replaced":
-                # comprehension target replaced by `_`, or assignment reduced to its value
-                pass
-        elif code == "unused_ignore":
-            if edit[0] != "same":
-                fails.append((f"autofix|unintended-edit|{code}", "removing an unused ignore comment changed the syntax tree"))
-                break
-        elif code in ("missing_f", "use_fstrings", "too_many_positional_args"):
-            if edit[0] != "expr-replaced":
-                fails.append((f"autofix|unintended-edit|{code}", f"fix for {diag_key(proposer)}: expected one expression to be replaced, got {edit[0]}"))
-                break
+        bad = intended_edit(code, edit)
+        if bad is not None:
+            fails.append((f"autofix|{bad[0]}|{code}", f"fix for {diag_key(proposer)}: {bad[1]}\n--- before\n{cur}--- after\n{new}"))
+            break
+        if code == "use_fstrings" and edit[0] == "expr-replaced":
             old_e, new_e = edit[1], edit[2]
-            if code == "missing_f":
-                if not (isinstance(old_e, ast.Constant) and isinstance(new_e, ast.JoinedStr)):
-                    fails.append((f"autofix|unintended-edit|{code}", f"missing_f replaced {type(old_e).__name__} by {type(new_e).__name__}"))
+            for env in ENVS:
+                a, b = eval_safe(old_e, env), eval_safe(new_e, env)
+                if a != b and not (a[0] == "exc" and b[0] == "exc"):
+                    fails.append((f"autofix|changes-value|{code}",
+                                  f"`{ast.unparse(old_e)}` -> `{ast.unparse(new_e)}`: with {env} the old expression gives {a}, the new one {b}"))
                     break
-            elif code == "use_fstrings":
-                for env in ENVS:
-                    a, b = eval_safe(old_e, env), eval_safe(new_e, env)
-                    if a != b and not (a[0] == "exc" and b[0] == "exc"):
-                        fails.append((f"autofix|changes-value|{code}",
-                                      f"`{ast.unparse(old_e)}` -> `{ast.unparse(new_e)}`: with {env} the old expression gives {a}, the new one {b}"))
-                        break
-                if fails:
-                    break
+            if fails:
+                break
+        if code in ("too_many_positional_args",) or (code == "unused_variable" and edit[0] == "expr-replaced"):
+            d = exec_diff(cur, new)
+            if d is not None:
+                fails.append((f"autofix|changes-behaviour|{code}", f"fix for {diag_key(proposer)}: {d}\n--- before\n{cur}--- after\n{new}"))
+                break
         try:
             res2 = sut.check_source(new, checker=checker_for("fix"))
         except BaseException as e:
